@@ -644,6 +644,10 @@ func (w *c01World) oneOp() {
 			}
 			w.app.EsmKeeper.SetESMStatus(w.ctx, st)
 			w.tr.Count("op:esm")
+			if st.Status && r.Chance(70) {
+				// right after the shutdown, inside the cool-off period: an owner withdraws against the principal at ratio 1
+				w.esmWithdrawOp()
+			}
 		}
 	}
 	if r.Chance(5) {
@@ -651,6 +655,9 @@ func (w *c01World) oneOp() {
 		return
 	}
 	if len(w.openAuctions()) > 0 && r.Chance(12) && w.auctionBlock2Op() {
+		return
+	}
+	if r.Chance(10) && w.esmWithdrawOp() {
 		return
 	}
 	if w.esmDue() && r.Chance(25) {
@@ -954,6 +961,19 @@ func (w *c01World) oneOp() {
 			emit("close", fn, u(vapp), u(prod), u(v.Id), "-", env, okk)
 		case k < 88:
 			amt := w.amount(r.Intn(4))
+			if v.AmountOut.IsPositive() && v.AmountIn.IsPositive() {
+				switch r.Intn(4) {
+				case 0: // the smallest deposit whose proportional draw is 1 unit (and its neighbours: the draw is then 0 and refused)
+					amt = v.AmountIn.Quo(v.AmountOut).AddRaw(int64(r.Intn(3)))
+					w.tr.Count("depositAndDraw:amount:smallest-nonzero-draw")
+				case 1, 2: // a share of the collateral already there
+					amt = v.AmountIn.MulRaw(int64(1 + r.Intn(50))).QuoRaw(100)
+					w.tr.Count("depositAndDraw:amount:share")
+				}
+				if !amt.IsPositive() {
+					amt = sdk.NewInt(1)
+				}
+			}
 			if r.Chance(80) {
 				bal := w.app.BankKeeper.GetBalance(w.ctx, from, w.denomOf[vp.assetIn]).Amount
 				if bal.LT(amt) {
@@ -964,9 +984,13 @@ func (w *c01World) oneOp() {
 			emit("depositAndDraw", fn, u(vapp), u(prod), u(v.Id), amt.String(), env, okk)
 		default:
 			// the handler accrues for (msg.AppId, the vault's own product)
-			env = w.env(vapp, v.ExtendedPairVaultID, v.Id, true)
-			okk := w.deliver(&vaulttypes.MsgVaultInterestCalcRequest{From: user.String(), AppId: vapp, UserVaultId: v.Id})
-			emit("interestCalc", u(vapp), u(v.Id), "-", "-", "-", env, okk)
+			vid := v.Id
+			if r.Chance(8) {
+				vid = w.app.VaultKeeper.GetIDForVault(w.ctx) + uint64(1+r.Intn(3)) // no such vault
+			}
+			env = w.env(vapp, v.ExtendedPairVaultID, vid, true)
+			okk := w.deliver(&vaulttypes.MsgVaultInterestCalcRequest{From: user.String(), AppId: vapp, UserVaultId: vid})
+			emit("interestCalc", u(vapp), u(vid), "-", "-", "-", env, okk)
 		}
 	}
 }
@@ -1975,6 +1999,13 @@ func (w *c01World) auctionBlock2Op() bool {
 // generation, nobody bids, the app is shut down, the auction runs out: in EVERY following block the begin-blocker gives the
 // owner the auction's collateral and target debt again as vault entries while the coins stay in the auction module account.
 func c01CorpusTrigger2(t *testing.T, tr *Trace) {
+	c01CorpusTrigger2Case(t, tr, false)
+	c01CorpusTrigger2Case(t, tr, true)
+}
+
+// withBid: a bidder first buys a third of the auction (more than the penalty is collected, so `TriggerEsm` burns the rest and
+// takes it off the minted total; the second block then fails for lack of coins in auction custody and is rolled back)
+func c01CorpusTrigger2Case(t *testing.T, tr *Trace, withBid bool) {
 	w := c01NewWorld(t, tr, NewRng(515151))
 	w.state()
 	user := w.users[0]
@@ -1990,20 +2021,92 @@ func c01CorpusTrigger2(t *testing.T, tr *Trace) {
 	if !ok || len(vs) == 0 {
 		t.Fatal("corpus: cannot open the vault")
 	}
+	// another user's well-collateralised vault of the same product: its collateral is what is left in custody later
+	other := w.users[1]
+	w.fund(other, p0.assetIn, in.MulRaw(3))
+	env = w.env(p0.app, p0.id, 0, false)
+	ok = w.deliver(&vaulttypes.MsgCreateRequest{From: other.String(), AppId: p0.app, ExtendedPairVaultId: p0.id, AmountIn: in.MulRaw(3), AmountOut: out})
+	w.tr.Line("vault.msg", "create", fmt.Sprint(w.acct(other.String())), u(p0.app), u(p0.id), in.MulRaw(3).String(), out.String(), env, c01Outcome(ok))
+	w.state()
 	twa, _ := w.app.MarketKeeper.GetTwa(w.ctx, p0.assetIn)
 	w.setPrice(p0.assetIn, twa.Twa*45/100, true)
 	w.liquidate(w.users[1], vs[0], false, twa.Twa)
+	if auc := w.openAuctions(); withBid && len(auc) > 0 {
+		a := auc[0]
+		bid := a.DebtToken.Amount.QuoRaw(3)
+		w.fund(w.users[1], w.assetByDenom(a.DebtToken.Denom), bid)
+		w.state()
+		okk := w.deliver(&auctionsV2types.MsgPlaceMarketBidRequest{AuctionId: a.AuctionId, Bidder: w.users[1].String(), Amount: sdk.NewCoin(a.DebtToken.Denom, bid)})
+		w.tr.Count(fmt.Sprintf("corpus:v2-partial-bid:%v", okk))
+		w.tr.Line("vault.msg", "donate", "99", "0", "0", "-", "-", "esm=0;past=0;brk=0;pin=-;pout=-;iota=0", "err")
+		w.stateKind("vault.state.bid")
+	}
 	w.app.EsmKeeper.SetESMStatus(w.ctx, esmtypes.ESMStatus{AppId: p0.app, Status: true, StartTime: w.now, EndTime: w.now.Add(100 * time.Hour), SnapshotStatus: true})
 	for _, id := range w.assetIDs {
-		w.app.EsmKeeper.SetSnapshotOfPrices(w.ctx, p0.app, id, 1000000)
+		tw, _ := w.app.MarketKeeper.GetTwa(w.ctx, id)
+		w.app.EsmKeeper.SetSnapshotOfPrices(w.ctx, p0.app, id, tw.Twa)
 	}
 	w.now = w.now.Add(2 * time.Hour)
+	defer func() {
+		// the consequence: inside the cool-off period the owner withdraws half of the collateral `TriggerEsm` recorded for him —
+		// coins that belong to the other user's vault (ratio >= 1 against the recorded debt at the snapshot prices is all that is asked)
+		for _, v := range w.vaultsOf(user.String()) {
+			amt := v.AmountIn.QuoRaw(2)
+			env := w.env(v.AppId, v.ExtendedPairVaultID, v.Id, true)
+			okk := w.deliver(&vaulttypes.MsgWithdrawRequest{From: user.String(), AppId: v.AppId, ExtendedPairVaultId: v.ExtendedPairVaultID, UserVaultId: v.Id, Amount: amt})
+			w.tr.Count(fmt.Sprintf("corpus:v2-trigger-esm:owner-withdraws-others-collateral:bid=%v:%s", withBid, c01Outcome(okk)))
+			w.tr.Line("vault.msg", "withdraw", fmt.Sprint(w.acct(user.String())), u(v.AppId), u(v.ExtendedPairVaultID), u(v.Id), amt.String(), env, c01Outcome(okk))
+			w.state()
+		}
+	}()
 	for i := 0; i < 2; i++ {
 		w.height++
 		w.now = w.now.Add(6 * time.Second)
 		w.ctx = w.ctx.WithBlockHeight(w.height).WithBlockTime(w.now)
 		if w.auctionBlock2Op() {
-			w.tr.Count("corpus:v2-trigger-esm")
+			w.tr.Count(fmt.Sprintf("corpus:v2-trigger-esm:bid=%v", withBid))
 		}
 	}
+}
+
+// esmWithdrawOp: while an app is shut down and its cool-off period is NOT over, owners may still withdraw collateral; the ratio
+// is then checked against the PRINCIPAL alone, at the snapshot prices, and must be at least 1 (msg_server.go:336-411,
+// vault.go:325-351,389). The owner of a vault of such an app withdraws down to that boundary (± 1, or a fraction).
+func (w *c01World) esmWithdrawOp() bool {
+	r := w.rng
+	for _, v := range w.vaultsOf("") {
+		st, f := w.app.EsmKeeper.GetESMStatus(w.ctx, v.AppId)
+		if !f || !st.Status || !st.SnapshotStatus || w.ctx.BlockTime().After(st.EndTime) {
+			continue
+		}
+		vp := w.productByID(v.ExtendedPairVaultID)
+		ep, _ := w.app.AssetKeeper.GetPairsVault(w.ctx, vp.id)
+		pin, ok1 := w.app.EsmKeeper.GetSnapshotOfPrices(w.ctx, v.AppId, vp.assetIn)
+		pout, ok2 := w.app.EsmKeeper.GetSnapshotOfPrices(w.ctx, v.AppId, vp.assetOut)
+		if !ep.AssetOutOraclePrice {
+			pout, ok2 = ep.AssetOutPrice, true
+		}
+		if !ok1 || !ok2 || pin == 0 || pout == 0 {
+			w.tr.Count("op:withdraw-under-shutdown:skipped-no-snapshot-price")
+			continue
+		}
+		// collateral needed for ratio 1 against the principal: in = out * pout * decIn / (pin * decOut)
+		need := v.AmountOut.Mul(sdk.NewIntFromUint64(pout)).Mul(w.decOf[vp.assetIn]).Quo(sdk.NewIntFromUint64(pin).Mul(w.decOf[vp.assetOut]))
+		amt := v.AmountIn.Sub(need).AddRaw(int64(r.Intn(5) - 2))
+		if r.Chance(30) || !amt.IsPositive() {
+			amt = v.AmountIn.QuoRaw(int64(2 + r.Intn(8)))
+		}
+		if !amt.IsPositive() {
+			amt = sdk.NewInt(1)
+		}
+		env := w.env(v.AppId, vp.id, v.Id, true)
+		ok := w.deliver(&vaulttypes.MsgWithdrawRequest{From: v.Owner, AppId: v.AppId, ExtendedPairVaultId: vp.id, UserVaultId: v.Id, Amount: amt})
+		w.tr.Count("op:withdraw-under-shutdown:" + c01Outcome(ok))
+		w.tr.Count("op:withdraw:" + c01Outcome(ok))
+		w.tr.Line("vault.msg", "withdraw", fmt.Sprint(w.acct(v.Owner)), u(v.AppId), u(vp.id), u(v.Id), amt.String(), env, c01Outcome(ok))
+		w.state()
+		return true
+	}
+	w.tr.Count("op:withdraw-under-shutdown:no-candidate")
+	return false
 }
